@@ -174,6 +174,23 @@ func genExtras(r *rng, tag bool) []hdr {
 		at := 1 + r.n(len(hs))
 		hs = append(hs[:at], append([]hdr{fake}, hs[at:]...)...)
 	}
+	// a continuation line (a line starting with a space) DIRECTLY after the leading block — git's own
+	// parser stops reading parents (object/type) there — followed by a line spelt like a parent / tree /
+	// object / type: still none of those (seeded change C16u hid continuation lines from the callers)
+	if r.coin(1, 8) {
+		val := []byte(hex.EncodeToString(randOID(r)))
+		var fake hdr
+		if tag {
+			fake = []hdr{{[]byte("object"), val}, {[]byte("type"), []byte("commit")}}[r.n(2)]
+		} else {
+			fake = []hdr{{[]byte("parent"), val}, {[]byte("tree"), val}}[r.n(2)]
+		}
+		lead := []hdr{{[]byte(""), randHeaderValue(r)}}
+		if r.coin(1, 2) {
+			lead = append(lead, hdr{[]byte(""), []byte("second continuation line")})
+		}
+		hs = append(append(lead, fake), hs...)
+	}
 	return hs
 }
 
